@@ -66,6 +66,30 @@ func run(c *h.Ctx, cs Case) {
 		c.Fail(fmt.Sprintf("C01/hook/allowed-without-R%d", k),
 			"ExecutionAllowedWithArgsHook returned nil although rule R%d is violated (broken %v)", k, r.Broken())
 	}
+	// history clause: the decision is about the loader handed to THIS call. After an allowed
+	// check, the same token object checked against a loader that has lost one delegation
+	// (or fails on it) must be denied.
+	if d.Allowed && len(cs.Links) > 0 {
+		degraded := cs.Case
+		degraded.Links = append([]chain.Link{}, cs.Links...)
+		k := cs.AltAud
+		if k < 0 {
+			k = 0
+		}
+		k %= len(degraded.Links)
+		if cs.AltAud%2 == 0 {
+			degraded.Links[k].Missing = true
+		} else {
+			degraded.Links[k].LoaderErr = true
+		}
+		if b2, err := chain.Build(degraded); err == nil {
+			b2.Inv = b.Inv // same token object, other loader
+			if d2 := chain.Decide(b2, nil); d2.Allowed {
+				c.Fail("C01/history/stale-loader-state", "after one allowed check, the same invocation token is allowed against a loader that cannot load delegation %d any more\ncase: %+v", k, cs)
+			}
+			c.P.Class("history:degraded-loader")
+		}
+	}
 	// audience clause: same chain, other audience => same decision
 	if cs.AltAud != cs.Inv.Aud {
 		alt := cs.Case
